@@ -266,6 +266,42 @@ macro_rules! h {
     };
 }
 
+/// Lookups of several types at once resolve every type to ITS OWN innermost scope.
+/// @h tier=quick bound="two scopes: A only in the parent, B in both (shadowed): get_multiple_mut (A,B) and (B,A)" unwind=6 memsafe=1 cost=3
+#[cfg_attr(kani, kani::proof)]
+#[cfg_attr(kani, kani::unwind(6))]
+pub fn h_c01_multi_lookup_scopes() {
+    let (a, b0, b1, x, y) = (sym::u8(), sym::u8(), sym::u8(), sym::u8(), sym::u8());
+    let mut reg = StateRegistry::new();
+    reg.insert(A(a));
+    reg.insert(B(b0));
+    let mut reg = reg.into_child();
+    reg.insert(B(b1));
+    match reg.try_get_multiple_mut::<(A, B)>() {
+        Ok((ra, rb)) => {
+            assert!(ra.0 == a && rb.0 == b1, "each type resolves to its own innermost scope");
+            ra.0 = x;
+            rb.0 = y;
+        }
+        Err(_) => assert!(false, "present types are found"),
+    }
+    match reg.try_get_multiple_mut::<(B, A)>() {
+        Ok((rb, ra)) => assert!(ra.0 == x && rb.0 == y, "the order of the requested types does not matter"),
+        Err(_) => assert!(false, "present types are found"),
+    }
+    let (p, top) = reg.into_parent();
+    assert!(top.try_get_value::<B>().ok() == Some(y) && !top.contains_at_top::<A>(), "inner scope: B written, A never there");
+    match p {
+        Some(p) => {
+            assert!(p.try_get_value::<B>().ok() == Some(b0) && p.try_get_value::<A>().ok() == Some(x), "shadowed outer B unchanged, outer A written");
+            std::mem::forget(p);
+        }
+        None => assert!(false, "parent exists"),
+    }
+    vcover!(true, "reached");
+    std::mem::forget(top);
+}
+
 // ==== generated harness list (tools/gen/gen_c01.py) ====
 // @h tier=quick bound="depth 1, A present per scope (bottom..top) 0, B in the bottom scope; op reads; all stored values and arguments" unwind=4
 h!(h_c01_reads_d1_0, 1, [false, false, false], 0, 4);
@@ -321,21 +357,21 @@ h!(h_c01_push_scope_d1_1, 1, [true, false, false], 11, 4);
 h!(h_c01_and_modify_value_d1_1, 1, [true, false, false], 12, 4);
 // @h tier=thorough bound="depth 2, A present per scope (bottom..top) 00, B in the bottom scope; op reads; all stored values and arguments" unwind=5
 h!(h_c01_reads_d2_00, 2, [false, false, false], 0, 5);
-// @h tier=thorough bound="depth 2, A present per scope (bottom..top) 00, B in the bottom scope; op insert; all stored values and arguments" unwind=5
+// @h tier=quick bound="depth 2, A present per scope (bottom..top) 00, B in the bottom scope; op insert; all stored values and arguments" unwind=5
 h!(h_c01_insert_d2_00, 2, [false, false, false], 1, 5);
-// @h tier=thorough bound="depth 2, A present per scope (bottom..top) 00, B in the bottom scope; op remove; all stored values and arguments" unwind=5
+// @h tier=quick bound="depth 2, A present per scope (bottom..top) 00, B in the bottom scope; op remove; all stored values and arguments" unwind=5
 h!(h_c01_remove_d2_00, 2, [false, false, false], 2, 5);
 // @h tier=thorough bound="depth 2, A present per scope (bottom..top) 00, B in the bottom scope; op set_value; all stored values and arguments" unwind=5
 h!(h_c01_set_value_d2_00, 2, [false, false, false], 3, 5);
 // @h tier=thorough bound="depth 2, A present per scope (bottom..top) 00, B in the bottom scope; op get_mut; all stored values and arguments" unwind=5
 h!(h_c01_get_mut_d2_00, 2, [false, false, false], 4, 5);
-// @h tier=thorough bound="depth 2, A present per scope (bottom..top) 00, B in the bottom scope; op and_modify_or_insert; all stored values and arguments" unwind=5
+// @h tier=quick bound="depth 2, A present per scope (bottom..top) 00, B in the bottom scope; op and_modify_or_insert; all stored values and arguments" unwind=5
 h!(h_c01_and_modify_or_insert_d2_00, 2, [false, false, false], 5, 5);
-// @h tier=thorough bound="depth 2, A present per scope (bottom..top) 00, B in the bottom scope; op or_insert_with; all stored values and arguments" unwind=5
+// @h tier=quick bound="depth 2, A present per scope (bottom..top) 00, B in the bottom scope; op or_insert_with; all stored values and arguments" unwind=5
 h!(h_c01_or_insert_with_d2_00, 2, [false, false, false], 6, 5);
-// @h tier=thorough bound="depth 2, A present per scope (bottom..top) 00, B in the bottom scope; op or_default; all stored values and arguments" unwind=5
+// @h tier=quick bound="depth 2, A present per scope (bottom..top) 00, B in the bottom scope; op or_default; all stored values and arguments" unwind=5
 h!(h_c01_or_default_d2_00, 2, [false, false, false], 7, 5);
-// @h tier=thorough bound="depth 2, A present per scope (bottom..top) 00, B in the bottom scope; op entry_insert; all stored values and arguments" unwind=5
+// @h tier=quick bound="depth 2, A present per scope (bottom..top) 00, B in the bottom scope; op entry_insert; all stored values and arguments" unwind=5
 h!(h_c01_entry_insert_d2_00, 2, [false, false, false], 8, 5);
 // @h tier=thorough bound="depth 2, A present per scope (bottom..top) 00, B in the bottom scope; op entry_remove; all stored values and arguments" unwind=5
 h!(h_c01_entry_remove_d2_00, 2, [false, false, false], 9, 5);
